@@ -589,16 +589,28 @@ class Normaliser:
                     body = body[:ob + 1] + ' ' + t + body[ob + 1:]
                 else:
                     body = body[:cb] + t + ' ' + body[cb:]
-            elif kind in ('after', 'before'):
+            elif kind.split('#')[0] in ('after', 'before'):
+                # anchor = exact statement text (whitespace-insensitive); `before#k/n` / `after#k/n`: the k-th of exactly n
+                # occurrences; without a suffix the text must occur exactly once
                 key = arg.strip()
-                idxs = [m.start() for m in re.finditer(re.escape(key), body)]
-                if len(idxs) != 1:
-                    raise AnchorLost(f'ghost splice: anchor text {key!r} occurs {len(idxs)} times')
-                if kind == 'after':
-                    j = idxs[0] + len(key)
+                pat = r'\s+'.join(re.escape(w) for w in key.split())
+                ms = list(re.finditer(pat, body))
+                base, _, sel = kind.partition('#')
+                if sel:
+                    kk, _, nn = sel.partition('/')
+                    kk, nn = int(kk), int(nn)
+                    if len(ms) != nn:
+                        raise AnchorLost(f'ghost splice: anchor text {key!r} occurs {len(ms)} times, expected {nn}')
+                    m0 = ms[kk]
+                else:
+                    if len(ms) != 1:
+                        raise AnchorLost(f'ghost splice: anchor text {key!r} occurs {len(ms)} times')
+                    m0 = ms[0]
+                if base == 'after':
+                    j = m0.end()
                     body = body[:j] + ' ' + t + body[j:]
                 else:
-                    j = idxs[0]
+                    j = m0.start()
                     body = body[:j] + t + ' ' + body[j:]
             else:
                 raise AnchorLost(f'ghost splice: unknown kind {kind}')
